@@ -375,7 +375,10 @@ fn replay_one(beh: &Value, tag: &str) -> (usize, usize, Vec<Value>, Option<Strin
                 let kind = m["kind"].as_str().unwrap();
                 // PHC file as the model chose: readable with the value, or unreadable
                 let _ = std::fs::remove_file(&phc_file);
-                if kind == "Data" && phc_configured {
+                // (when the report's reference is not the PHC, the file is irrelevant by specification:
+                // make it unreadable half of the time)
+                let ref_match = m["rep"]["refMatch"].as_bool().unwrap_or(false);
+                if kind == "Data" && phc_configured && (ref_match || i % 2 == 1) {
                     std::fs::write(&phc_file, format!("{}\n", m["phc"].as_i64().unwrap())).unwrap();
                 }
                 let grace = exp["grace"].as_bool().unwrap_or(false) || kind.ends_with("Grace");
